@@ -11,7 +11,7 @@ Record pcase := PC {
   pc_par : params;                    (* parameters of the first call *)
   pc_tree : tree;                     (* the shape of the fresh (whole) tree before the first call *)
   pc_start : list nat;                (* the node the calls are made on ([] = the root) *)
-  pc_steps : list (edit * params);    (* further calls on the same tree object: edit, then lay out *)
+  pc_steps : list (list edit * params);    (* further calls on the same tree object: edit, then lay out *)
   pc_out : ctree;                     (* shape and (x, y) attributes after the last call *)
   pc_binary : bool;                   (* the nodes are BinaryNode objects *)
   pc_raised : option nat              (* exception code when the (first) call raised *)
